@@ -77,6 +77,19 @@ class Workload:
                 world.behaviours[("post", "t")] = {"kind": "terminal"}
         return wf
 
+    def plainly_succeeds(self):
+        """True for workloads whose intended outcome is beyond doubt: every task simply succeeds (possibly after
+        reporting RUNNING a few times), default joins, no conditions, no jumps - the workflow must end SUCCEEDED."""
+        for s in self.stages:
+            if s.join != "AND" or s.split != "AND" or s.mutex or s.choice or s.type not in ("v", "vsyn", "vsyn2", "vsyn_gate"):
+                return False
+            if any(k in s.ctx for k in ("stageEnabled", "skipIf", "startTimeExpiry")) or self.notes:
+                return False
+            for _n, script in (s.tasks or []):
+                if script.get("kind", "ok") not in ("ok", "poll"):
+                    return False
+        return True
+
     def decoy_workflow(self):
         """Same ref_ids, other shape: 'nodeps' = every stage a root, 'chain' = one total order (reversed)."""
         from stabilize import StageExecution, TaskExecution, Workflow
